@@ -19,7 +19,8 @@
      name denotes (`Mutate`);
    * non-mutating operations: `+`, `+=`, `-`, `*`, slices, sublist, sorted,
      zip, list()/set()/map()/object() conversions, comprehension copies,
-     spread copy and a library call (List->reverse); they allocate a FRESH
+     spread copy and library functions written in the language (reverse,
+     chunks, unique, flatten, filter, substitute); they allocate a FRESH
      reference for the result and bind it to a name (`Fresh`); copies are
      shallow (cells are copied, so nested containers stay shared);
    * Alias(n1, n2): `n2 = n1`;
@@ -41,7 +42,8 @@
    FuncPut/FuncAdd/FuncSub/FuncMul/FuncSublist/FuncSorted/FuncZip/FuncList/
    FuncSet/FuncMap/FuncObject, nodes.py NodeDerefAssign/NodeDerefSlice/
    NodeListComprehension/NodeSpread/NodeAssign/NodeLiteral, modules/list.ckl
-   append_all, reverse.                                                               *)
+   append_all, reverse, unique, flatten, filter, modules/core.ckl chunks,
+   substitute.                                                             *)
 EXTENDS HeapOps, TLC, Json, IOUtils
 
 CONSTANTS MaxRefs,    \* number of references (containers alive at once)
@@ -274,6 +276,43 @@ DoReverse(n) ==                              \* List->reverse(n)
 DoSpread(n) ==                               \* [...n]
   /\ Holds(n, "list") /\ Pure(n, MkList(C(n).items), "spread", 0)
 
+(* Library functions written in the language (modules/core.ckl, list.ckl):
+   each is documented to return a new list ("a list of pieces", "a filtered
+   copy", "the original list remains untouched"), so in the model the result
+   - and every piece inside it - is a fresh reference however short the
+   argument is. *)
+
+DoChunks(n, whole) ==                        \* chunks(n, MaxLen): one piece | chunks(n, 1): singletons
+  /\ Holds(n, "list") /\ Size(n) > 0        \* (what chunks gives for an empty list is C19's subject)
+  /\ LET it == C(n).items
+         k  == IF whole THEN MaxLen ELSE 1
+         np == NumPieces(it, k)
+         fr == SortedSeq(FreeRefs(heap))
+     IN /\ Len(fr) >= np + 1
+        /\ Finish([r \in Ref |->
+                     IF r = fr[1] THEN MkList([j \in 1..np |-> R(fr[j + 1])])
+                     ELSE IF \E j \in 1..np : fr[j + 1] = r
+                          THEN LET j == CHOOSE j \in 1..np : fr[j + 1] = r
+                               IN MkList(Piece(it, k, j))
+                          ELSE heap[r]],
+                  [names EXCEPT ![Tgt(n)] = R(fr[1])],
+                  OpRec("chunks", n, "", Tgt(n), k, 0))
+
+DoUnique(n) ==                               \* unique(n)
+  /\ Holds(n, "list") /\ AllInts(C(n).items)
+  /\ Pure(n, MkList(FirstOccs(C(n).items)), "unique", 0)
+
+DoFlatten(n) ==                              \* flatten(n): one level; the inner lists' cells are shared
+  /\ Holds(n, "list") /\ Len(FlatCells(heap, C(n).items)) <= MaxLen
+  /\ Pure(n, MkList(FlatCells(heap, C(n).items)), "flatten", 0)
+
+DoFilterAll(n) ==                            \* filter(n, fn(x) TRUE)
+  /\ Holds(n, "list") /\ Pure(n, MkList(C(n).items), "filter", 0)
+
+DoSubstitute(n) ==                           \* substitute(n, 0, x)
+  /\ Holds(n, "list") /\ Size(n) > 0
+  /\ Pure(n, MkList(<<I(NextVal(n))>> \o Tail(C(n).items)), "substitute", NextVal(n))
+
 \* a literal evaluated again (inside a function called once more) is a fresh
 \* value equal to what is written: `def lit_list() [1]`, `def lit_str() 'ab'`
 LitList == MkList(<<I(1)>>)
@@ -297,6 +336,8 @@ NonMutating(n) ==
   \/ DoAddAssign(n) \/ DoRepeat(n, 1) \/ DoRepeat(n, 2) \/ DoSublist(n) \/ DoSorted(n)
   \/ DoZip(n) \/ DoToList(n) \/ DoToSet(n) \/ DoToMap(n) \/ DoToObj(n)
   \/ DoCompr(n) \/ DoReverse(n) \/ DoSpread(n)
+  \/ DoChunks(n, TRUE) \/ DoChunks(n, FALSE) \/ DoUnique(n) \/ DoFlatten(n)
+  \/ DoFilterAll(n) \/ DoSubstitute(n)
   \/ DoLit(n, TRUE) \/ DoLit(n, FALSE)
 
 Next == \E n \in Names : \/ Mutator(n) \/ NonMutating(n)
